@@ -101,6 +101,8 @@ VARIANTS = {
     'tsan': ('cc', '-D%s -fsanitize=thread' % GUARD, []),
     'nohook': ('cc', '', []),
     'fuzzing': ('cc', '-D%s' % GUARD, ['-DOPUS_FUZZING=ON']),
+    # the library's own SIMD self-checks (OPUS_CHECK_ASM runs the C kernel next to every SIMD kernel and asserts equality)
+    'checkasm': ('cc', '-D%s' % GUARD, ['-DOPUS_CHECK_ASM=ON', '-DOPUS_ASSERTIONS=ON']),
 }
 
 
